@@ -153,7 +153,67 @@ def run(ctx, R):
                             else:
                                 rec_pos(v, anc)
                 rec_pos(F.hir(p)["body"], [])
-            R.floor("constant assignments to the read position", n_pos, 1)
+            R.notes.append("constant assignments to the read position: %d" % n_pos)
+            # bytes that were not consumed yet are never discarded: an open-ended drain of the buffer (`drain(K..)`) and
+            # `pos = buf.len()` throw away everything behind K / skip to the end, which is right only when everything has
+            # been consumed (pos >= buf.len()). A helper that does so inherits the obligation to its call sites.
+            def all_consumed_guard(anc):
+                for a, key in anc:
+                    if a["k"] == "If" and key == "then" and a["cond"]["k"] == "Binary" and a["cond"]["op"] in ("Ge", "Eq"):
+                        c = a["cond"]
+                        if chain(c["a"])[-1:] == ["pos"] and chain(c["b"])[-2:] == ["buf", "len()"]:
+                            return True
+                return False
+            crfns = {p: it for p, it in F.items.items() if it["file"] == "src/parser/char_reader.rs" and it["kind"] in ("Fn", "AssocFn") and "::tests::" not in p}
+            discards = {}    # function -> unguarded discarding sites (line, what)
+
+            def scan(p, callees_discarding):
+                out = []
+
+                def rec_d(n, anc):
+                    if isinstance(n, list):
+                        for x in n:
+                            rec_d(x, anc)
+                        return
+                    if not isinstance(n, dict):
+                        return
+                    what = None
+                    if n.get("k") == "MethodCall" and n["name"] == "drain" and chain(n["recv"])[-1:] == ["buf"] and n.get("args"):
+                        a0 = n["args"][0]
+                        if a0.get("k") == "Struct" and (res_name(a0) or "").endswith("RangeFrom") or (a0.get("k") == "Struct" and "RangeFrom" in (a0.get("ty") or "")):
+                            what = "buf.drain(K..)"
+                    if n.get("k") == "Assign" and chain(n["lhs"])[-1:] == ["pos"] and chain(n["rhs"])[-2:] == ["buf", "len()"]:
+                        what = "pos = buf.len()"
+                    if n.get("k") in ("MethodCall", "Call") and (n.get("resolved") or n.get("callee")) in callees_discarding:
+                        what = "call of %s" % short(n.get("resolved") or n.get("callee"))
+                    if what and not all_consumed_guard(anc):
+                        out.append((n["ln"], what))
+                    for k2, v in n.items():
+                        if k2 != "mac" and isinstance(v, (dict, list)):
+                            if n.get("k") == "If" and k2 in ("then", "else"):
+                                rec_d(v, anc + [(n, k2)])
+                            else:
+                                rec_d(v, anc)
+                rec_d(F.hir(p)["body"], [])
+                return out
+            changed = True
+            while changed:
+                changed = False
+                for p in crfns:
+                    got = scan(p, set(discards))
+                    if got and p not in discards:
+                        discards[p] = got
+                        changed = True
+            # a discarding function is fine if it is only a helper (every call site guarded); the roots are the ones
+            # nobody can guard: public entry points of the reader
+            roots = [p for p in discards if re.search(r"::(peek_char|read_char|refresh_buffer|consume|put_back_char|skip_bad_bytes)$", p)]
+            for p in sorted(crfns):
+                if re.search(r"::(peek_char|read_char|refresh_buffer|consume|put_back_char|skip_bad_bytes)$", p):
+                    bad = discards.get(p, [])
+                    R.ob("C18:unread-bytes-never-discarded:%s" % short(p), not bad,
+                         "%s discards buffer contents outside a `pos >= buf.len()` branch (%s): when the buffer ends inside a multi-byte character the bytes of that character "
+                         "are still unread, and dropping them loses the character (a multi-byte character across an 8 KiB refill boundary reads as invalid data)"
+                         % (short(p), bad), F.where(p))
         # ---- RF1: input siblings -----------------------------------------------------------------------
         variants = streams.stream_variants(F)
         fns = {
